@@ -9,3 +9,58 @@ func VerifC04_q_reincarnation() {
 func VerifC04_t_reincarnationDeep() {
 	vpReincarnation(vpScenarioOpts{prop: "C04", topos: []int{0, 1}, kinds: []int{vpKindSts, vpKindDp, vpKindBare, vpKindTApp}, earlySteps: 2, lateSteps: 2})
 }
+
+// BOUND: topology 0; two statefulset pods ss-0, ss-1 bound (symbolic policy); ss-0 disappears without its event being handled (so a resync pass has API calls to make); a resync pass runs and, atomically inside any one window right before/after one of its API-server calls (symbolic window 0..10), ss-1 is re-incarnated: deleted, its event handled, re-created with a new UID, filtered and bound on any approved node. Afterwards every live bound pod must still own its IP
+// ASSUME: C04: interference granularity = API-server calls: the second activity runs to completion inside one window of the first; interleavings in which it would have to wait for a lock the first holds are discarded
+func VerifC04_q_resyncVsReincarnation() {
+	w := vpNewWorld(0, nondetBool())
+	if err := w.configure(); err != nil {
+		return
+	}
+	w.setStatefulSet(2)
+	policy := nondetPick("", "immutable", "never")
+	for i := 0; i < 2; i++ {
+		name := vpPodNameOf(vpKindSts, i)
+		w.createPod(vpMakePod(name, "U1", vpKindSts, policy, "", ""))
+		w.syncListers()
+		nodes, err := w.filter(name, "n1", "n5", "n3")
+		if err != nil || len(nodes) == 0 {
+			return
+		}
+		if w.bind(name, nodes[0]) != nil {
+			return
+		}
+		w.setRunning(name)
+	}
+	w.syncListers()
+	w.checkAll("C04", "setup")
+	w.deletePodSilently("ss-0")
+	w.syncListers()
+	w.interferer = func() {
+		name := "ss-1"
+		w.deletePod(name)
+		w.syncListers()
+		for len(w.pending) > 0 {
+			_ = w.handleEvent(0)
+		}
+		w.createPod(vpMakePod(name, "U2", vpKindSts, policy, "", ""))
+		w.syncListers()
+		nodes, err := w.filter(name, "n1", "n5", "n3")
+		if err != nil || len(nodes) == 0 {
+			return
+		}
+		if w.bind(name, nodes[nondetChoice(len(nodes))]) == nil {
+			w.setRunning(name)
+			w.syncListers()
+		}
+	}
+	w.windowAt = nondetInt(0, 10)
+	w.resync()
+	ran := w.interferer == nil
+	w.interferer = nil
+	verifReach("resync-returned")
+	if ran {
+		verifReach("reincarnation-inside-resync")
+	}
+	w.checkAll("C04", "a resync pass that overlapped a re-incarnation")
+}
